@@ -67,12 +67,31 @@ pub fn build(pats: &[Vec<u8>], kind: Kind, v: Variant) -> Option<Searcher> {
         }
         Variant::Default => {}
     }
+    // The collection reaches the builder in one of three equivalent ways
+    // (chosen by its shape): all at once; one by one; the first pattern added
+    // and the rest in two batches.
     let mut b = c.builder();
-    b.extend(pats.iter());
+    match (pats.len() + pats.first().map_or(0, |p| p.len())) % 3 {
+        0 => {
+            b.extend(pats.iter());
+        }
+        1 => {
+            for p in pats {
+                b.add(p);
+            }
+        }
+        _ => {
+            if let Some((first, rest)) = pats.split_first() {
+                b.add(first);
+                let (r1, r2) = rest.split_at(rest.len() / 2);
+                b.extend(r1.iter());
+                b.extend(r2.iter());
+            }
+        }
+    }
     b.build()
 }
 
-/// Which implementation did the builder actually pick? (Read from Debug.)
 /// The algorithm a packed searcher runs. Read from its Debug output where that
 /// names it; otherwise (type names are an implementation detail) taken from
 /// the variant that was forced through `packed::Config`.
@@ -215,6 +234,19 @@ pub fn check_one(
             Ok(g) if g == exp_it => {
                 if g.len() >= 2 {
                     rep.tally("iter_with_2plus_matches");
+                }
+                // the consuming Iterator methods of the packed iterator itself
+                if hay.len() % 4 == 1 {
+                    let c = guard(|| (s.find_iter(hay).count(), s.find_iter(hay).last().map(pm)));
+                    rep.eval();
+                    rep.tally("iterator_method_cases");
+                    if c != Ok((exp_it.len(), exp_it.last().copied())) {
+                        rep.violation(
+                            &format!("find_iter:{}:{}:iterator_methods", imp, kind.name()),
+                            format!("count()/last() of the packed iterator = {:?}, the sequence yielded by next() has {} items ending with {:?}", c, exp_it.len(), exp_it.last()),
+                            case_json(pats, kind, v, hay, span, "find_iter"),
+                        );
+                    }
                 }
                 if rep.want_sample() && g.len() >= 2 && teddy_ran && hay.len() < 80 {
                     rep.sample(
